@@ -15,6 +15,33 @@ fn cfg(d: &mut Dna) -> GenCfg {
     c
 }
 
+/// enums with more variants than a byte can count: the variant part of the input must still tell all of them apart.
+/// The first variant's shape is repeated at positions 256 and 512, everything else is a unit variant
+fn adjust(s: &mut TypeSpec, d: &mut Dna) -> bool {
+    if s.kind != Kind::Enum || !s.gens.is_empty() || s.variants.is_empty() || !d.chance(3) {
+        return true;
+    }
+    let n = [257usize, 258, 300, 513][d.pick(4)];
+    let first = s.variants[0].clone();
+    s.variants.clear();
+    for i in 0..n {
+        let mut v = if i % 256 == 0 {
+            first.clone()
+        } else {
+            VariantSpec { name: String::new(), shape: Shape::Unit, fields: vec![], disc: None, attrs: vec![], split: 0, raw: vec![], noise: vec![], disc_sp: 0 }
+        };
+        v.name = format!("U{i}");
+        v.disc = None;
+        s.variants.push(v);
+    }
+    if let Some(r) = s.repr.clone() {
+        if r.contains("u8") || r.contains("i8") {
+            s.repr = None;
+        }
+    }
+    true
+}
+
 pub fn render(s: &TypeSpec) -> Option<Rendered> {
     if s.variants.is_empty() {
         return None;
@@ -90,6 +117,9 @@ pub fn render(s: &TypeSpec) -> Option<Rendered> {
     if consistent {
         classes.push("eq_consistency_checked".to_string());
     }
+    if s.variants.len() > 256 {
+        classes.push("more_than_256_variants".to_string());
+    }
     Some(Rendered { observer: o, nontrivial: ignored || multi_with_unit, need_tallies: vec!["differ"], classes })
 }
 
@@ -107,7 +137,7 @@ pub fn behaviour() -> Behaviour {
                an ignored field whose value varies or >=2 variants including a unit one, with differing pairs observed",
         salt: 0xC05,
         cfg,
-        adjust: no_adjust,
+        adjust,
         render,
         quick: 4000,
         thorough: 20000,
